@@ -30,6 +30,15 @@ size:      notes/SIZE_STRESS.md -- the abstract cases stay, the concretization h
            in one with-block.  TLC treats words as numbers, so Split/the list semantics are length-independent
            by construction; counts are real (TLC splits the 1000-value layouts itself).
 
+value alphabet: words of the generated fields (all legs: read-only, append/remove/replace, references, recorded
+           executions, several views) include values that BEGIN with '#' -- directly after the colon ("F:#foo"),
+           after blanks on the first line, first on a continuation line after the blank/tab, mid-line -- and values
+           holding '#', ':' and (whitespace view) ','.  The expectation is the spec's: word tokens are values
+           wherever they stand, only CM tokens (a '#' in COLUMN 0 of a line) are comment lines.  Handing in a NEW
+           value that begins with '#' (append / replace target / reference set) is refused by the code
+           (ValueError, nothing changes): unspecified -- not generated in the replay leg, accepted either way in
+           recorded traces (event flag `hash`) as long as the list stays consistent.
+
 API surface (notes/API_SURFACE.md) -- every public way to reach the list behaviour -> exercising leg.  "variant n"
 is make_list()/Block/show()/call() below; variants rotate with the concretization (Conc.idioms, per event in
 traces) in the QUICK tier too and are MIXED within one history: the values on open are read from a second list
@@ -105,15 +114,27 @@ SP, NL, CT, CTS, CM, SEP = -1, -2, -3, -4, -5, -6
 KNOWN_BLANK_FIRST = "C11-blank-first-line"
 
 
+# only effective while known_findings.json has an OPEN entry with this id (none is expected): a value that
+# begins with '#' DIRECTLY after the colon ("F:#foo") is read as a comment line by both list views
+KNOWN_HASH_COLON = "C11-hash-after-colon"
+
+
+def hash_after_colon(lay, texts):
+    return bool(lay) and lay[0] >= 1 and texts[0].startswith("#")
+
+
 def blank_first_line(mode, lay):
     return mode == "sp" and list(lay[:2]) == [SP, NL]
 NEWW, ABSENT, UNKNOWN = 9, 8, 99999
 
 # ------------------------------------------------------------------ concretization
 SP_WORDS = ["amd64", "i386", "any", "all", "linux-any", "kfreebsd-amd64", "hurd-i386", "foo", "a", "x,y",
-            "libfoo-dev", "!armel", "b2", "naïve", "中", "a:b", "c#d", "q=1", "[x]", "-"]
+            "libfoo-dev", "!armel", "b2", "naïve", "中", "a:b", "c#d", "q=1", "[x]", "-",
+            # values may BEGIN with '#' (only a '#' in column 0 of a line starts a comment) and hold ':' and ','
+            "#1003", "#beta", "#", "##x,y", ":x", "k:", ",,"]
 CM_WORDS = ["foo", "bar (>= 1.0)", "a | b", "libc6 (>= 2.3) [amd64 i386]", "baz:any", "d", "x-y.z+1",
-            "debhelper-compat (= 13)", "p <!nocheck>", "naïve", "${misc:Depends}", "q #r", "e  f", "g\th"]
+            "debhelper-compat (= 13)", "p <!nocheck>", "naïve", "${misc:Depends}", "q #r", "e  f", "g\th",
+            "#1003", "#beta (>= 1)", "# x", "#", "k: v", ":x"]
 BLANKS = [" ", " ", "  ", "\t", " \t", "   "]
 COMMENTS = ["# comment\n", "#\n", "#x\n", "# a, b , c\n", "#  two  words \n", "# é中\n", "#,\n", "# Field: like\n"]
 FIELDS = ["Architecture", "Depends", "Build-Depends", "X-List", "Uploaders2", "Provides", "a-b", "F"]
@@ -148,13 +169,18 @@ def sized_word(mode, wid, n):
 class Conc:
     """concrete text for one layout: one string per layout position, words by id, the surrounding fields"""
 
-    def __init__(self, rng, mode, lay, canonical=False, stress=False, huge=False):
+    def __init__(self, rng, mode, lay, canonical=False, stress=False, huge=False, safe=()):
         self.mode = mode
         pool = SP_WORDS if mode == "sp" else CM_WORDS
         ids = sorted({t for t in lay if t >= 1} | {NEWW, ABSENT})
         extra = ["pkg%d" % k if (mode == "sp" or k % 2) else "pkg%d (>= %d)" % (k, k) for k in range(len(ids))]
         chosen = (pool[:len(ids)] if canonical else rng.sample(pool, min(len(ids), len(pool)))) + extra
         self.word = dict(zip(ids, chosen))
+        for wid in set(safe) | {NEWW, ABSENT}:      # NEW values that begin with '#' are refused (unspecified): not here
+            if wid not in self.word:
+                continue
+            if self.word[wid].startswith("#"):
+                self.word[wid] = "n%d" % wid if mode == "sp" else "n%d (= %d)" % (wid, wid)
         if stress:
             for wid in ids:
                 if rng.random() < (0.5 if len(ids) < 40 else 0.05):
@@ -213,7 +239,7 @@ class Conc:
         if wid not in self.word:
             pool = SP_WORDS if self.mode == "sp" else CM_WORDS
             used = set(self.word.values())
-            free = [w for w in pool if w not in used]
+            free = [w for w in pool if w not in used and not w.startswith("#")]
             self.word[wid] = (rng.choice(free) if rng and free else None) or "w%d" % wid
         return self.word[wid]
 
@@ -512,8 +538,8 @@ def shape(text, conc):
     """diagnostic only: a field text reduced to w , # newline and single blanks"""
     words = sorted(set(conc.word.values()), key=len, reverse=True)
     out = []
-    for line in text.splitlines(keepends=True):
-        if line.startswith("#"):
+    for n, line in enumerate(text.splitlines(keepends=True)):
+        if n and line.startswith("#"):          # (the first line of a value is never a comment line)
             out.append("#\n")
             continue
         for w in words:
@@ -554,6 +580,9 @@ def run_case(ctx, case, conc, drift=None):
     if got0 != exp0 and blank_first_line(mode, case["lay"]) and got0[:1] and got0[0].startswith("<reading the view raised") \
             and ctx.known_open(KNOWN_BLANK_FIRST):
         ctx.known_hit(KNOWN_BLANK_FIRST)
+        return None
+    if got0 != exp0 and hash_after_colon(case["lay"], conc.texts) and ctx.known_open(KNOWN_HASH_COLON):
+        ctx.known_hit(KNOWN_HASH_COLON)
         return None
     if got0 != exp0:
         return "values on open %r, splitting the text gives %r (field text %r)" % (got0, exp0, conc.value_text())
@@ -778,7 +807,7 @@ def record_trace(rng, mode, nwords, nsessions, nops, script=None, lay=None, forc
         sessions = script["sessions"]
         keep = script.get("keep", False)
     _, dec = conc.tables(keep)
-    nextid = [100]
+    nextid = [max([100] + [t + 1 for t in lay])]      # numbers of NEW words: above every word of the layout
     last_obs = [[]]
     cur_s = [None]
 
@@ -797,6 +826,10 @@ def record_trace(rng, mode, nwords, nsessions, nops, script=None, lay=None, forc
             nextid[0] += 1
 
     def new_value(fresh_p=0.6):
+        if rng.random() < 0.06 and "#new" not in dec and not forced:
+            dec["#new"] = (nextid[0],)       # a NEW value beginning with '#': refused today, unspecified (hash flag)
+            nextid[0] += 1
+            return "#new"
         if rng.random() < fresh_p or not dec:
             wid = nextid[0]
             nextid[0] += 1
@@ -872,9 +905,13 @@ def record_trace(rng, mode, nwords, nsessions, nops, script=None, lay=None, forc
                     for ref, what, wv in zip(lst.iter_value_references(), c["plan"], c["ws"]):
                         idx += 1
                         if what == "set":
-                            ref.value = wv
-                            events.append({"op": "refset", "v": [], "w": code_of(wv), "i": idx, "res": "ok",
-                                           "obs": observe(lst), "doc": "ok"})
+                            try:
+                                ref.value = wv
+                                r2 = "ok"
+                            except ValueError:
+                                r2 = "ValueError"
+                            events.append({"op": "refset", "v": [], "w": code_of(wv), "i": idx, "res": r2,
+                                           "hash": wv.startswith("#"), "obs": observe(lst), "doc": "ok"})
                         elif what == "remove":
                             ref.remove()
                             events.append({"op": "refremove", "v": [], "w": [], "i": idx, "res": "ok",
@@ -885,9 +922,10 @@ def record_trace(rng, mode, nwords, nsessions, nops, script=None, lay=None, forc
                                    "obs": [], "doc": "ok"})
             else:
                 r = call(lst, c["op"], c["v"], c["w"], c["i"], c.get("var", 0), mode)
+                newv = c["v"] if c["op"] == "append" else c["w"]
                 events.append({"op": c["op"], "v": code_of(c["v"]) if c["v"] is not None else [],
                                "w": code_of(c["w"]) if c["w"] is not None else [], "i": c["i"], "res": r,
-                               "obs": observe(lst), "doc": "ok"})
+                               "hash": bool(newv) and newv.startswith("#"), "obs": observe(lst), "doc": "ok"})
             k += 1
         ab = (rng.random() < 0.12 and force is None) if sessions is None else bool(sessions[sn].get("abort"))
         r = s.leave(ab)
@@ -945,7 +983,8 @@ def corrupt(t, how):
 
 
 def tlc_trace(t):
-    return {"mode": t["mode"], "keep": bool(t.get("keep")), "lay": t["lay"], "events": t["events"]}
+    return {"mode": t["mode"], "keep": bool(t.get("keep")), "lay": t["lay"],
+            "events": [dict(e, hash=bool(e.get("hash"))) for e in t["events"]]}
 
 
 def validate(ctx, traces, with_controls=True):
@@ -1045,6 +1084,9 @@ def run(ctx):
             if blank_first_line(mode, t["lay"]) and t["events"][0]["res"].startswith("EXC") and ctx.known_open(KNOWN_BLANK_FIRST):
                 ctx.known_hit(KNOWN_BLANK_FIRST)
                 continue
+            if hash_after_colon(t["lay"], t["script"]["conc"]["texts"]) and ctx.known_open(KNOWN_HASH_COLON):
+                ctx.known_hit(KNOWN_HASH_COLON)
+                continue
             traces.append(t)
         # size stress: counts of values / comment lines / continuation lines / consecutive edits
         nstress = 0
@@ -1114,7 +1156,9 @@ def run(ctx):
             for c in range(nconc):
                 # canonical minimal form every 4th case, a size-stressed one (boundary lengths of words,
                 # blank runs and comment lines) every 8th
-                conc = Conc(rng, case["mode"], case["lay"], canonical=(c == 0 and ci % 4 == 0), stress=(ci % 8 == 2))
+                handed_in = [x[0] for o in case["ops"] for x in ((o["v"] if o["op"] == "append" else []), o["w"]) if len(x) == 1]
+                conc = Conc(rng, case["mode"], case["lay"], canonical=(c == 0 and ci % 4 == 0), stress=(ci % 8 == 2),
+                            safe=handed_in)
                 msg = run_case(ctx, case, conc, drift=ctx.drift)
                 n_replayed += 1
                 key = (case["mode"], tuple(case["lay"]), tuple((o["op"], json.dumps(o["v"]), o["i"]) for o in case["ops"]))
